@@ -131,7 +131,7 @@ type c07ID struct {
 }
 
 type c07Scenario struct {
-	FromShape int     `json:"from_shape"` // 0 one address, 1 no From field, 2 several addresses, 3 several From fields
+	FromShape int     `json:"from_shape"` // 0 one address, 1 no From field, 2 several addresses, 3 several From fields, 4 an empty From field in front of the real one, 5 ... and one behind it
 	FromDom   int     `json:"from_domain"`
 	DKIM      []c07ID `json:"dkim"`
 	SPF       *c07ID  `json:"spf"`      // nil: SPF not evaluated
@@ -175,7 +175,7 @@ func (sc c07Scenario) record() string {
 
 func c07Gen(t *rapid.T) c07Scenario {
 	sc := c07Scenario{}
-	sc.FromShape = rapid.SampledFrom([]int{0, 0, 0, 0, 0, 0, 0, 1, 2, 3}).Draw(t, "from_shape")
+	sc.FromShape = rapid.SampledFrom([]int{0, 0, 0, 0, 0, 0, 0, 0, 0, 1, 2, 3, 4, 5}).Draw(t, "from_shape")
 	sc.FromDom = rapid.IntRange(0, len(c07FromDomains)-1).Draw(t, "from_domain")
 	id := func(label string) c07ID {
 		return c07ID{Value: rapid.SampledFrom([]int{0, 0, 0, 1, 2, 3, 4, 5, 5, 6}).Draw(t, label+"_value"), Rel: rapid.IntRange(0, relCount-1).Draw(t, label+"_rel")}
@@ -340,14 +340,10 @@ func c07Model(sc c07Scenario) c07Expect {
 		}
 		return c07Expect{Actions: set(act), Verdicts: set("temperror"), Why: "temporary authentication error on an aligned identifier, policy " + pol}
 	case spfTempUnaligned:
-		// An SPF temperror on an identity that could not align anyway: the
-		// statement does not say whether this "leaves alignment undecided";
-		// both readings are accepted.
-		acts := set(act)
-		if pol == "reject" {
-			acts["reject4"] = true
-		}
-		return c07Expect{Actions: acts, Verdicts: set("temperror", "fail"), Why: "SPF temperror on a non-aligned identity, policy " + pol}
+		// An SPF temperror on an identity that could not align anyway does not leave alignment undecided:
+		// the verdict is fail and the published action applies (the temporary code is reserved for errors
+		// "that leave alignment undecided"). The verdict string reported for a delivered message may be either.
+		return c07Expect{Actions: set(act), Verdicts: set("temperror", "fail"), Why: "SPF temperror on a non-aligned identity (alignment is decided: fail), policy " + pol}
 	default:
 		return c07Expect{Actions: set(act), Verdicts: set("fail"), Why: "no aligned identifier passed, policy " + pol}
 	}
@@ -405,6 +401,10 @@ func c07Header(sc c07Scenario) string {
 		return "Subject: x\r\n\r\n"
 	case 2:
 		return "From: user@" + d + ", other@" + d + "\r\nSubject: x\r\n\r\n"
+	case 4:
+		return "From:\r\nFrom: user@" + d + "\r\nSubject: x\r\n\r\n"
+	case 5:
+		return "From: \r\nFrom: user@" + d + "\r\nFrom:\r\nSubject: x\r\n\r\n"
 	default:
 		return "From: user@" + d + "\r\nFrom: second@" + d + "\r\nSubject: x\r\n\r\n"
 	}
